@@ -169,3 +169,143 @@ def gen_join(rng, big=False):
         else:
             s.ext.append(["C%d" % t] + jops)
     return s.text()
+
+
+def topo_with_parking(rng):
+    nes, pools, es = topology(rng, max_es=2)
+    pools = list(pools) + [("fifo", "mpmc")]          # last pool: parking pool, served by no stream
+    return nes, pools, es, len(pools) - 1
+
+
+def gen_directed(rng, big=False):
+    """C11 family (directed switches): chains built from yield_to, thread_yield_to, suspend_to, resume_yield_to,
+    resume_suspend_to, exit_to, resume_exit_to, create_to; targets started or not, same or different pools"""
+    nes, pools, es, park = topo_with_parking(rng)
+    s = Scn(rng, nes, pools)
+    for e, sch, mine in es:
+        s.es(e, sch, mine)
+    sched_pools = [99] + [m for _, _, mine in es for m in mine]
+    frees = []
+    for _ in range(rng.randint(1, 5 if big else 3)):
+        tpl = rng.choice(["yield_to", "thread_yield_to", "suspend_to", "resume_yield_to", "resume_suspend_to",
+                          "exit_to", "resume_exit_to", "create_to"])
+        apool = rng.choice(sched_pools)
+        if tpl in ("yield_to", "thread_yield_to"):
+            op = "y" if tpl == "yield_to" else "t"
+            nb = rng.randint(1, 3)
+            bs = []
+            aops = ["W"]
+            for _ in range(nb):
+                yields = rng.choice([0, 0, 1, 2])
+                b = s.unit("U", "N", park, ["W"] + ["Y"] * yields)
+                bs.append(b)
+                s.main.append("C%d" % b)
+                aops += ["%s%d" % (op, b)] * (yields + 1)
+            a = s.unit("U", "N", apool, aops + ["W"])
+            s.main.append("C%d" % a)
+            frees += [a] + bs
+        elif tpl == "suspend_to":
+            a = s.unit("U", "N", apool, [])
+            b = s.unit("U", "N", park, ["R%d" % a, "W"])
+            s.units[a][3] = ["W", "s%d" % b, "W"]
+            s.main += ["C%d" % b, "C%d" % a]
+            frees += [a, b]
+        elif tpl == "resume_yield_to":
+            b = s.unit("U", "N", rng.choice(sched_pools), ["W", "S", "W"])
+            a = s.unit("U", "N", apool, ["r%d" % b, "W"])
+            s.main += ["C%d" % b, "C%d" % a]
+            frees += [a, b]
+        elif tpl == "resume_suspend_to":
+            a = s.unit("U", "N", apool, [])
+            b = s.unit("U", "N", rng.choice(sched_pools), ["S", "R%d" % a, "W"])
+            s.units[a][3] = ["u%d" % b, "W"]
+            s.main += ["C%d" % b, "C%d" % a]
+            frees += [a, b]
+        elif tpl == "exit_to":
+            b = s.unit("U", "N", park, ["W"])
+            a = s.unit("U", "N", apool, ["W", "e%d" % b])
+            s.main += ["C%d" % b, "C%d" % a]
+            frees += [a, b]
+        elif tpl == "resume_exit_to":
+            b = s.unit("U", "N", rng.choice(sched_pools), ["S", "W"])
+            a = s.unit("U", "N", apool, ["W", "x%d" % b])
+            s.main += ["C%d" % b, "C%d" % a]
+            frees += [a, b]
+        else:
+            b = s.unit("U", rng.choice(["N", "A"]), rng.choice(sched_pools), ["W"] + ["Y"] * rng.choice([0, 1]))
+            a = s.unit("U", "N", apool, ["W", "c%d" % b, "W"])
+            s.main.append("C%d" % a)
+            frees.append(a)
+            if s.units[b][1] == "N":
+                frees.append(b)
+    # free in creation-independent order, but a unit created by another unit (create_to) must exist: free creators first
+    s.main += ["F%d" % u for u in frees]
+    return s.text()
+
+
+def gen_lifecycle(rng, big=False):
+    """C12 family: cancel before / during execution, exit, revive cycles, tasklets"""
+    nes, pools, es = topology(rng)
+    s = Scn(rng, nes, pools)
+    for e, sch, mine in es:
+        s.es(e, sch, mine)
+    npool = len(pools)
+    for _ in range(rng.randint(1, 5 if big else 3)):
+        what = rng.choice(["cancel_early", "cancel_mid", "cancel_task", "exit", "revive", "revive_task"])
+        pool = pick_pool(rng, npool)
+        if what == "cancel_early":
+            t = s.unit("U", "N", pool, ["Y"] * 3)
+            s.main += ["C%d" % t, "K%d" % t, "F%d" % t]
+        elif what == "cancel_mid":
+            t = s.unit("U", "N", pool, ["Y"] * rng.randint(6, 14))
+            s.main += ["C%d" % t] + ["Y"] * rng.randint(0, 3) + ["K%d" % t, rng.choice(["F%d" % t, "J%d F%d" % (t, t)])]
+        elif what == "cancel_task":
+            t = s.unit("T", "N", pool, ["W"])
+            s.main += ["C%d" % t, "K%d" % t, "F%d" % t]
+        elif what == "exit":
+            t = s.unit("U", rng.choice(["N", "A"]), pool, ["W"] + ["Y"] * rng.randint(0, 2) + ["X"])
+            s.main.append("C%d" % t)
+            if s.units[t][1] == "N":
+                s.main.append("F%d" % t)
+        elif what == "revive":
+            t = s.unit("U", "N", pool, ["W"] + ["Y"] * rng.randint(0, 2))
+            s.main += ["C%d" % t]
+            for _ in range(rng.randint(1, 4)):
+                s.main += ["J%d" % t, "V%d" % t]
+            s.main.append("F%d" % t)
+        else:
+            t = s.unit("T", "N", pool, ["W"])
+            s.main += ["C%d" % t, "J%d" % t, "V%d" % t, "J%d" % t, "V%d" % t, "F%d" % t]
+    s.main = " ".join(s.main).split()
+    return s.text()
+
+
+def gen_migrate(rng, big=False, self_suspend=False):
+    """C13 family: migration requests (external, self, repeated) handled at yields and at scheduling"""
+    nes, pools, es = topology(rng, max_es=2)
+    while nes < 1:
+        nes, pools, es = topology(rng, max_es=2)
+    s = Scn(rng, nes, pools)
+    for e, sch, mine in es:
+        s.es(e, sch, mine)
+    sched_pools = [99] + [m for _, _, mine in es for m in mine]
+    for _ in range(rng.randint(1, 4 if big else 2)):
+        src = rng.choice(sched_pools)
+        dst = rng.choice([p for p in sched_pools if p != src])
+        how = rng.choice(["ext", "self", "twice"]) if not self_suspend else "self_suspend"
+        if how == "ext":
+            t = s.unit("U", "N", src, ["Y"] * rng.randint(4, 10))
+            s.main += ["C%d" % t, "M%d:%d" % (t, dst), "F%d" % t]
+        elif how == "self":
+            t = s.unit("U", "N", src, [])
+            s.units[t][3] = ["W", "M%d:%d" % (t, dst), "Y", "W", "Y"]
+            s.main += ["C%d" % t, "F%d" % t]
+        elif how == "twice":
+            t = s.unit("U", "N", src, [])
+            s.units[t][3] = ["M%d:%d" % (t, dst), "Y", "M%d:%d" % (t, src), "Y", "W"]
+            s.main += ["C%d" % t, "F%d" % t]
+        else:
+            t = s.unit("U", "N", src, [])
+            s.units[t][3] = ["M%d:%d" % (t, dst), "S", "W"]
+            s.main += ["C%d" % t, "R%d" % t, "F%d" % t]
+    return s.text()
